@@ -53,7 +53,14 @@ func main() {
 
 	cfg := tables.StdCfg().Tok()
 	g := &tables.Gen{U: tables.StdUniverse(), Rng: rng}
+	nrun := 0
 	run := func(ops []string) {
+		// two thirds of the histories carry their frames as RAW BYTES (a fifth of those frames damaged):
+		// the model then derives the frame summary itself from the bytes
+		nrun++
+		if nrun%3 != 0 {
+			ops = tables.RawOps(ops, rng, 20, func(k string) { r.Stat(k, 1) })
+		}
 		r.Do("t5", append([]string{cfg, "0"}, ops...)...)
 		for _, o := range ops {
 			r.Stat("op."+o[:1], 1)
